@@ -329,7 +329,7 @@ func (g *generator) next(r *run) string {
 		report := "i"
 		if task, ok := workerTask[key]; ok && task != "-" {
 			d := taskDigest[task]
-			pick := g.rng.Pick(55, 25, 12, 8)
+			pick := g.rng.Pick(52, 23, 11, 7, 7)
 			if g.resync && g.rng.Chance(2, 3) {
 				pick = 2 // the worker lost the response (or restarted) and asks again: counts against the retry limit
 			}
@@ -357,6 +357,13 @@ func (g *generator) next(r *run) string {
 				report = "i"
 			case 3:
 				report = fmt.Sprintf("e:%d", g.rng.Intn(6))
+			case 4:
+				// a stale completion: the worker reports the result of another action (the one it
+				// ran before) while this task is assigned to it
+				g.nextTok++
+				other, _ := strconv.Atoi(d)
+				other = (other + 1 + g.rng.Intn(5)) % 6
+				report = fmt.Sprintf("c:%d:0:0:%d", other, g.nextTok)
 			}
 		} else {
 			switch g.rng.Pick(85, 6, 6, 3) {
